@@ -416,3 +416,17 @@ def _fname(prog, f):
     if f.d["kind"] == "lambda" and f.d.get("lambdaOf") in prog.funcs:
         return "lambda in " + prog.funcs[f.d["lambdaOf"]].q
     return f.q
+
+
+META = {
+    "technique": "who-may-write + name-flow taint over the resolved call graph from the build entry points; must-pass-through and branch-fact dominance on the CFGs of io::stageFiles / moveStagedTempFile / serial buildKernel",
+    "level": "Static, all-paths decision of the structural clause behind crash safety: every file-creating call reachable from the "
+             "Serial/OpenMP build entry points (fopen/ofstream/open, the wrappers io::write, json::write, parser_t::writeToFile computed as summaries, "
+             "and compiler command lines' -o/> operands) writes the temp name handed to an io::stageFile(s) callback; stageFiles publishes only "
+             "after the callback returned true, with unique same-directory temp names, by rename with a checked result; every completion test "
+             "looks at a staged name; source and build file precede the binary. A kill at any point therefore cannot leave a partial file under a "
+             "name that later runs treat as complete. This covers every write site on every path, which no finite set of kill points in a test can.",
+    "note": "Decides the structural clause, not the behaviour after power loss (fsync ordering) and not the correctness of rename(2). Trusted: clang 14 AST/CFG, the "
+            "extractor, the name-derivation whitelist (expandFilename, c_str, suffix concatenation, element of the staged strVector). Launched (GPU) modes' compile "
+            "steps are outside the pinned configuration.",
+}
